@@ -404,6 +404,20 @@ class Selector:
                         s.events.append(("hidden-report", hidden, n))
                     res.append((s, ("none",)))
             return res
+        if short in ("strip", "lower", "casefold", "lstrip", "rstrip") and isinstance(n.func, ast.Attribute) and not n.args and not n.keywords:
+            # normalising the user's spelling keeps it the user's value; a registry name that is already in normal form (all of
+            # them are lower-case without blanks - checked here) is unchanged by it
+            res = []
+            for s, v in self.ev(n.func.value, st):
+                if v is not None and v[0] == "envval":
+                    res.append((s, v))
+                elif v is not None and v[0] == "rowname" and all(isinstance(r_[0], str) and r_[0] == r_[0].strip().lower() for r_ in self.rows):
+                    res.append((s, v))
+                elif v is None:
+                    res.append((s, None))
+                else:
+                    res.append((s, ("?", norm(n)[:40])))
+            return res
         if short in ("str", "repr", "format", "lower", "upper", "strip", "get") and f not in self.fns:
             outs = [st]
             for a in list(n.args):
@@ -416,6 +430,9 @@ class Selector:
                 and not any(isinstance(x, (ast.Call, ast.Await, ast.Yield, ast.NamedExpr)) for x in ast.walk(n.args[0])):
             # ", ".join(name for name, _ in table): message text put together from names; nothing is called, imported or bound
             return [(st, ("?", "joined text"))]
+        if f == "len" and len(n.args) == 1 and not n.keywords:
+            outs = self.ev(n.args[0], st)
+            return [(s, None if v is None else (("const", len(v[1])) if v[0] in ("tuple", "set") else ("?", "len(%s)" % norm(n.args[0])[:30]))) for s, v in outs]
         if f == "set" and not n.args and not n.keywords:
             return [(st, ("set", ()))]
         if short == "add" and isinstance(n.func, ast.Attribute) and isinstance(n.func.value, ast.Name) and len(n.args) == 1 \
@@ -539,7 +556,7 @@ class Selector:
             pos = isinstance(op, (ast.Is, ast.Eq))
             if other[0] == "none":
                 return [(st, pos)]
-            if is_modulish(other) or other[0] in ("const", "rowname", "rowmod", "tuple", "rowlist"):
+            if is_modulish(other) or other[0] in ("const", "rowname", "rowmod", "tuple", "rowlist", "row"):
                 return [(st, not pos)]
             if other[0] == "envval" and other[1] != "?":
                 # os.environ.get(K) is None exactly when K is not set
